@@ -162,6 +162,75 @@ def denoteRow (ops : FloatOps) : List Field → List (Option Bytes) → Option (
     | _, _ => none
   | _, _ => none
 
+/-! ### what a text cell says, whether or not it is a value of the column type
+
+  `denoteText` is defined on the values of a column type.  `readText` is its
+  extension to every text that still reads as a number or a date: an integer
+  of any magnitude (also one the column's width cannot hold), a date or
+  datetime with any two-digit month and day.  A client must never be handed a
+  value other than the one the text spells; for the texts outside
+  `denoteText` an error is the only other acceptable outcome. -/
+
+/-- `YYYY-MM-DD`, whatever the month and day numbers. -/
+def dateRead (s : Bytes) : Option Val :=
+  match s with
+  | [y0, y1, y2, y3, 45, m0, m1, 45, d0, d1] =>
+    match four y0 y1 y2 y3, two m0 m1, two d0 d1 with
+    | some y, some m, some d => some (.dt y m d 0 0 0 0)
+    | _, _, _ => none
+  | _ => none
+
+/-- `YYYY-MM-DD HH:MM:SS[.ffffff]` with a time of day, whatever the month and
+    day numbers. -/
+def datetimeRead (s : Bytes) : Option Val :=
+  match s with
+  | y0 :: y1 :: y2 :: y3 :: 45 :: m0 :: m1 :: 45 :: d0 :: d1 :: 32 :: h0 :: h1 :: 58 :: i0 :: i1 :: 58 :: s0 :: s1 :: frac =>
+    match four y0 y1 y2 y3, two m0 m1, two d0 d1, two h0 h1, two i0 i1, two s0 s1, fracText frac with
+    | some y, some m, some d, some h, some mi, some sec, some us =>
+      if h < 24 ∧ mi < 60 ∧ sec < 60 then some (.dt y m d h mi sec us) else none
+    | _, _, _, _, _, _, _ => none
+  | _ => none
+
+/-- What a text-protocol cell says. -/
+def readText (ops : FloatOps) (f : Field) (cell : Option Bytes) : Option Val :=
+  match cell with
+  | none => some .null
+  | some s =>
+    match intWidth f.typ with
+    | some _ => (intText s).map .int
+    | none =>
+      if f.typ = TypeDate ∨ f.typ = TypeNewDate then dateRead s
+      else if f.typ = TypeDatetime ∨ f.typ = TypeTimestamp then datetimeRead s
+      else denoteText ops f (some s)
+
+/-- `readText` of every cell of a row. -/
+def readRow (ops : FloatOps) : List Field → List (Option Bytes) → Option (List Val)
+  | [], [] => some []
+  | f :: fs, c :: cs =>
+    match readText ops f c, readRow ops fs cs with
+    | some d, some ds => some (d :: ds)
+    | _, _ => none
+  | _, _ => none
+
+/-! ### the values a MySQL server sends
+
+  `denoteText` accepts a few spellings no server produces (`-0` in an UNSIGNED
+  column).  `serverCell` is the domain on which the proxy must *deliver* the
+  value (not merely refrain from sending another one): a value of the column
+  type in the server's spelling. -/
+
+def serverCell (ops : FloatOps) (f : Field) (cell : Option Bytes) : Bool :=
+  match cell with
+  | none => true
+  | some s =>
+    (denoteText ops f (some s)).isSome
+      && (!((intWidth f.typ).isSome && f.isUnsigned) || s.head? != some 45)
+
+def serverRow (ops : FloatOps) : List Field → List (Option Bytes) → Bool
+  | [], [] => true
+  | f :: fs, c :: cs => serverCell ops f c && serverRow ops fs cs
+  | _, _ => false
+
 /-- Column-wise `Val.same`. -/
 def sameRow : List Val → List Val → Bool
   | [], [] => true
@@ -279,5 +348,71 @@ def decodeBinRow (fields : List Field) (row : Bytes) : Option (List Val) :=
       | some (vs, []) => some vs
       | _ => none
   | _ => none
+
+/-! ### column definitions (Protocol::ColumnDefinition41 of a result set) -/
+
+structure ColumnDef where
+  catalog : Bytes
+  schema : Bytes
+  table : Bytes
+  orgTable : Bytes
+  name : Bytes
+  orgName : Bytes
+  charset : Nat
+  columnLength : Nat
+  typ : Nat
+  flags : Nat
+  decimals : Nat
+  deriving Repr, DecidableEq
+
+/-- The type and flags a client decodes the rows by. -/
+def ColumnDef.toField (c : ColumnDef) : Field := { typ := c.typ, flag := c.flags }
+
+/-- The numbers fit their wire widths, the strings are shorter than 2^62 bytes. -/
+def ColumnDef.wf (c : ColumnDef) : Prop :=
+  c.charset < 2 ^ 16 ∧ c.columnLength < 2 ^ 32 ∧ c.typ < 256 ∧ c.flags < 2 ^ 16 ∧ c.decimals < 256
+    ∧ c.catalog.length < 2 ^ 62 ∧ c.schema.length < 2 ^ 62 ∧ c.table.length < 2 ^ 62 ∧ c.orgTable.length < 2 ^ 62
+    ∧ c.name.length < 2 ^ 62 ∧ c.orgName.length < 2 ^ 62
+
+/-- "def" -/
+def defCatalog : Bytes := [100, 101, 102]
+
+/-- The 13 bytes after the six strings: length of the fixed part (0x0c),
+    character set, column length, type, flags, decimals, two filler bytes. -/
+def columnDefTail (c : ColumnDef) : Bytes :=
+  [0x0c] ++ leBytes c.charset 2 ++ leBytes c.columnLength 4 ++ [UInt8.ofNat c.typ] ++ leBytes c.flags 2
+    ++ [UInt8.ofNat c.decimals] ++ [0, 0]
+
+/-- The packet a server sends for a column of a result set. -/
+def encodeColumnDef (c : ColumnDef) : Bytes :=
+  LenEnc.appendLenEncStringBytes c.catalog ++ LenEnc.appendLenEncStringBytes c.schema
+    ++ LenEnc.appendLenEncStringBytes c.table ++ LenEnc.appendLenEncStringBytes c.orgTable
+    ++ LenEnc.appendLenEncStringBytes c.name ++ LenEnc.appendLenEncStringBytes c.orgName ++ columnDefTail c
+
+/-- A client's reading of a column-definition packet of a result set. -/
+def decodeColumnDef (p : Bytes) : Option ColumnDef :=
+  match takeLenEnc p with
+  | none => none
+  | some (catalog, p) =>
+  match takeLenEnc p with
+  | none => none
+  | some (schema, p) =>
+  match takeLenEnc p with
+  | none => none
+  | some (table, p) =>
+  match takeLenEnc p with
+  | none => none
+  | some (orgTable, p) =>
+  match takeLenEnc p with
+  | none => none
+  | some (name, p) =>
+  match takeLenEnc p with
+  | none => none
+  | some (orgName, p) =>
+    match p with
+    | [0x0c, c0, c1, l0, l1, l2, l3, t, f0, f1, d, _, _] =>
+      some { catalog, schema, table, orgTable, name, orgName, charset := leNat [c0, c1],
+             columnLength := leNat [l0, l1, l2, l3], typ := t.toNat, flags := leNat [f0, f1], decimals := d.toNat }
+    | _ => none
 
 end GaeaVerif.BinProto
